@@ -9,7 +9,7 @@ TRUSTED_BASE = [
     "hand-written model coq/Model/Channels.v (HttpDemux::select, prepare_speedtest with u32::from_str semantics, the download and upload countdowns); the reverse-proxy relay itself is the DuplexPipe of C02",
     "translator tools/gen_tables.py -> Generated/ChannelFacts.v (select precedence and each test, speedtest constants and handlers' shape, ping answer, reverse-proxy destination = settings.server_address reached through connect_to_peer which has no policy check, the wait for the origin's response head reads the origin first and keeps a failed body write for later, after the head the origin-bound end of the pipe keeps its first error to itself and discards the rest of the body, no handler mentions the authenticator)",
     "hand-written model coq/Model/Http1Download.v of the response side of Http1Codec (one-place channel, message in flight kept in the codec, partial writes, dropped listen futures, orderly close), pinned by fact HTTP1_MESSAGE_IN_FLIGHT_KEPT and run against the real codec over a scripted transport (engine c18_dl: the model's and the codec's offers, byte counts after every step and final bytes must be equal)",
-    "hand-written model coq/Model/RpRelay.v of the reverse proxy's exchange after the response head (origin's bytes, its end or error, progress / failure / end of the upload, failure of the client's side), pinned by fact RP_FAILED_UPLOAD_STOPS_THE_UPLOAD_ONLY and driven by the scenario c18_rp_refusal with a drained origin and a slow reader",
+    "hand-written model coq/Model/RpRelay.v of the reverse proxy's exchange after the response head (origin's bytes, its end or error, progress / failure / end of the upload, failure of the client's side), whose flag is the regenerated fact RP_FAILED_UPLOAD_STOPS_THE_UPLOAD_ONLY (false on the current code: the recorded finding rp-refused-upload-large-answer-cut, theorem answer_after_a_failed_upload_is_cut_known_finding; a_repair_relays_the_whole_answer states what a repair has to achieve), driven by the scenario c18_rp_refusal with a drained origin and a slow reader",
     "extraction + driver.ml, cross-checked against vm_compute; harness door verif::session on all four channels (HTTP/1.1 bytes / real h2 client), origin canary on loopback",
 ]
 ASSUMPTIONS = [
@@ -299,6 +299,11 @@ REFUSAL_WAIT_MS = 800
 
 
 def known_finding(case, kind, msg, known):
+    if case.kind.startswith("rp-origin:upload-refused-large-answer-slow-reader-") and "the client received status 413 and " in msg:
+        # (the status arrived, body bytes are missing: the recorded finding; anything else about these cases is reported)
+        for k in known.get("findings", []):
+            if k["property"] == "C18" and k["id"] == "rp-refused-upload-large-answer-cut":
+                return "rp-refused-upload-large-answer-cut"
     if case.kind.startswith("speedtest:upload-0") and "answered 400" in msg:
         for k in known.get("findings", []):
             if k["property"] == "C18" and k["id"] == "upload-of-zero-bytes-refused":
